@@ -20,6 +20,7 @@ case "$name" in
   *-l) base="${name%-l}"; wt=/tmp/seed12-$base; out=/tmp/seed12-$base-out ;;
   *-m) base="${name%-m}"; wt=/tmp/seed13-$base; out=/tmp/seed13-$base-out ;;
   *-n) base="${name%-n}"; wt=/tmp/seed14-$base; out=/tmp/seed14-$base-out ;;
+  *-o) base="${name%-o}"; wt=/tmp/seed15-$base; out=/tmp/seed15-$base-out ;;
   *)   wt=/tmp/seed-$name; out=/tmp/seed-$name-out ;;
 esac
 dst=/verif/seeded/$name
